@@ -399,6 +399,78 @@ func c14Run(b core.Batch, r *core.Recorder) {
 			}
 		}
 	}
+	if level == "cache" {
+		c14stops(r, backend)
+	}
+}
+
+// c14stops: "stopping the cache never blocks", with interval changes the janitor has not consumed (or will never
+// consume) at the moment of the stop: the context was cancelled first, the janitor loop is parked inside a cycle, or
+// the changes arrive back to back right before Destroy.
+func c14stops(r *core.Recorder, backend string) {
+	wd, _ := os.Getwd()
+	n := 0
+	for rep := 0; rep < 3; rep++ {
+		for _, variant := range []string{"context-cancelled-first", "janitor-parked-in-a-cycle", "changes-right-before-destroy"} {
+			for _, changes := range []int{2, 3, 6} {
+				n++
+				id := fmt.Sprintf("stop-%s-%d", backend, n)
+				cs := map[string]any{"id": id, "backend": backend, "stop_variant": variant, "interval_changes_before_destroy": changes}
+				if !r.Case(id, cs) {
+					continue
+				}
+				if c14stalls.Load() >= 2 {
+					r.NotJudged("skipped-after-repeated-stalls")
+					continue
+				}
+				r.Eval(1)
+				ctx, cancel := context.WithCancel(context.Background())
+				vc, cfg := rig.NewCache(ctx, rig.CacheOpts{Backend: backend, Dir: filepath.Join(wd, "c14stop", id), Max: 1 << 30, Shards: 2, Interval: time.Hour})
+				release := make(chan struct{})
+				var once sync.Once
+				switch variant {
+				case "context-cancelled-first":
+					cancel()
+					time.Sleep(3 * time.Millisecond)
+				case "janitor-parked-in-a-cycle":
+					parked := make(chan struct{}, 1)
+					var armed atomic.Bool
+					armed.Store(true)
+					verifhook.Set("janitor.scan.done", func(any) {
+						if armed.CompareAndSwap(true, false) {
+							parked <- struct{}{}
+							<-release
+						}
+					})
+					cfg.Cache.CleanupInterval.Overwrite(duration.Duration(time.Millisecond))
+					select {
+					case <-parked:
+					case <-time.After(3 * time.Second):
+						armed.Store(false)
+					}
+				}
+				for k := 0; k < changes; k++ {
+					cfg.Cache.CleanupInterval.Overwrite(duration.Duration(time.Duration(20+k) * time.Minute))
+				}
+				if variant != "changes-right-before-destroy" {
+					time.Sleep(2 * time.Millisecond) // the notification goroutines have run as far as they can
+				}
+				c14pending.Add(1)
+				ok := c14watch(r, cs, 10*time.Second, func() {
+					vc.Destroy()
+					c14progress.Add(1)
+				})
+				c14pending.Add(-1)
+				once.Do(func() { close(release) })
+				verifhook.Set("janitor.scan.done", nil)
+				cancel()
+				if ok {
+					r.Count("stops_with_unconsumed_interval_changes", 1)
+					r.Nontrivial("stop", backend, variant, changes, rep)
+				}
+			}
+		}
+	}
 }
 
 func c14Plan(tier string, seed int64) []core.Batch {
@@ -424,12 +496,12 @@ func init() {
 	core.Register(&core.Monitor{
 		ID:    "C14",
 		Level: "exploration",
-		Rule: "stress configurations = backend x shard count {1,2,3,1024} x key placement {all keys on one shard, spread} x shutdown {Destroy after / during traffic / twice} x config churn on/off, 16 workers x <ops> random store/get/delete/update/get-metadata on 12 keys, limit 1500 B (so stores keep evicting from inside the store), janitor at 1 ms; the same through the real proxy (12 clients, plain and tunnel, Range requests, policy/limit/interval/budget churn); race and plain builds (thorough: also GOMAXPROCS 1/2/4). " +
+		Rule: "stress configurations = backend x shard count {1,2,3,1024} x key placement {all keys on one shard, spread} x shutdown {Destroy after / during traffic / twice} x config churn on/off, 16 workers x <ops> random store/get/delete/update/get-metadata on 12 keys, limit 1500 B (so stores keep evicting from inside the store), janitor at 1 ms; the same through the real proxy (12 clients, plain and tunnel, Range requests, policy/limit/interval/budget churn); race and plain builds (thorough: also GOMAXPROCS 1/2/4); stops with 2-6 interval changes the janitor has not consumed (context cancelled first / janitor loop parked inside a cycle by a hook / changes right before Destroy). " +
 			"A watchdog dumps all goroutines when no operation completes for 15-20 s while work is pending; blocked reservoir frames = violation, none = inconclusive. Non-trivial = distinct configuration that ran to completion.",
 		Assumptions: []string{"bounded progress under the listed workloads, not deadlock freedom", "a stall without any goroutine blocked inside reservoir is reported as inconclusive, never as a violation"},
 		Plan:        c14Plan,
 		Run:         c14Run,
 		Parallel:    3,
-		Floors:      map[string]map[string]int64{"quick": {"configurations_completed": 80, "evictions_started_with_one_shard": 1000}, "thorough": {"configurations_completed": 320, "evictions_started_with_one_shard": 10000}},
+		Floors:      map[string]map[string]int64{"quick": {"configurations_completed": 80, "evictions_started_with_one_shard": 1000, "stops_with_unconsumed_interval_changes": 100}, "thorough": {"configurations_completed": 320, "evictions_started_with_one_shard": 10000, "stops_with_unconsumed_interval_changes": 400}},
 	})
 }
